@@ -23,6 +23,7 @@ import (
 	"sort"
 	"strings"
 	"sync"
+	"sync/atomic"
 	"time"
 
 	"github.com/tdewolff/minify/v2"
@@ -275,7 +276,14 @@ func panicSig(p string) string {
 	return "panic:unknown-frame"
 }
 
-func hostile(m *minify.M, mt string, in []byte, tag string) {
+// hangs seen so far; after a few the run stops early (every hung call keeps a core busy until the process exits, and the
+// finding is already made)
+var hangs int32
+
+func hostile(m *minify.M, mt string, in []byte, tag string) bool {
+	if atomic.LoadInt32(&hangs) >= 3 {
+		return false
+	}
 	limit := 2*time.Second + time.Duration(len(in))*20*time.Microsecond
 	o, ok := runOne(m, mt, in, limit)
 	mu.Lock()
@@ -283,12 +291,13 @@ func hostile(m *minify.M, mt string, in []byte, tag string) {
 	res.Hist("hostile", mt)
 	mu.Unlock()
 	if !ok {
+		atomic.AddInt32(&hangs, 1)
 		viol("timeout", "hang:"+mt, mt, in, fmt.Sprintf("no result within %v for %d bytes", limit, len(in)), map[string]string{"source": tag})
-		return
+		return false
 	}
 	if o.panicked != "" {
 		viol("panic", panicSig(o.panicked), mt, in, o.panicked, map[string]string{"source": tag})
-		return
+		return false
 	}
 	mu.Lock()
 	if o.err != nil {
@@ -300,6 +309,7 @@ func hostile(m *minify.M, mt string, in []byte, tag string) {
 		}
 	}
 	mu.Unlock()
+	return true
 }
 
 // ---------- (c) Bytes / String on error ----------
@@ -473,8 +483,9 @@ func main() {
 		} else if w.Options["check"] == "bytes" {
 			bytesOnError(m, mt, in)
 		} else {
-			hostile(m, mt, in, "witness")
-			bytesOnError(m, mt, in)
+			if hostile(m, mt, in, "witness") {
+				bytesOnError(m, mt, in)
+			}
 		}
 		res.Samples = []interface{}{w.Input}
 		res.Write(filepath.Join(*outDir, "result.json"))
@@ -540,8 +551,7 @@ func main() {
 			defer wg.Done()
 			mm := newM()
 			for j := range jobs {
-				hostile(mm, j.mt, j.in, j.tag)
-				if len(j.in) < 5000 {
+				if hostile(mm, j.mt, j.in, j.tag) && len(j.in) < 5000 {
 					bytesOnError(mm, j.mt, j.in)
 				}
 			}
@@ -585,8 +595,72 @@ func main() {
 			jobs <- job{d.mt, in, "deep-nesting"}
 		}
 	}
+	// degenerate tokens in every value position of the declarations minifyProperty treats specially (empty strings, lone
+	// signs / dots / commas / slashes, empty functions, half numbers), exhaustively over pairs and sampled over triples;
+	// the same idea for path data and a few svg attributes
+	cssProps := []string{"font", "font-family", "font-weight", "src", "margin", "padding", "border-width", "border", "border-top", "outline", "background", "background-size",
+		"background-repeat", "background-position", "box-shadow", "-ms-filter", "filter", "color", "background-color", "border-color", "border-left-color", "fill", "stroke", "column-rule",
+		"text-shadow", "text-decoration", "text-emphasis", "flex", "flex-basis", "order", "flex-grow", "flex-shrink", "unicode-range", "transition", "transform", "grid-template-areas", "content", "width", "--x"}
+	cssToks := []string{`""`, `''`, "0", ".", "-", "+", ",", "/", "()", "a()", "url()", `url("")`, "#", "#1", "!important", "!", "1e", "1e+", "%", "0%", "1px", "-0", "+.0", "a", "A", "none", "inherit", "bold", "12px", "rgb()",
+		"rgb(1,2)", "rgba(0,0,0,0)", "hsl(0)", "var(--a)", "calc()", "U+", "U+0-7F", "u+??", `"a"`, `"a b"`, "sans-serif", "no-repeat", "0 0", "center", "top", "padding-box", "1 1 0", "auto", "\\", "\\0", "{", "[", "]", "(", ";"}
+	for _, prop := range cssProps {
+		for _, a := range cssToks {
+			jobs <- job{"text/css", []byte("a{" + prop + ":" + a + "}"), "degenerate-tokens"}
+			for _, b := range cssToks {
+				jobs <- job{"text/css", []byte("a{" + prop + ":" + a + " " + b + "}"), "degenerate-tokens"}
+			}
+		}
+		for i := 0; i < 400; i++ {
+			k := 3 + r.Intn(3)
+			var parts []string
+			for j := 0; j < k; j++ {
+				parts = append(parts, cssToks[r.Intn(len(cssToks))])
+			}
+			sep := []string{" ", ",", "/", ""}[r.Intn(4)]
+			jobs <- job{"text/css", []byte("a{" + prop + ":" + strings.Join(parts, sep) + "}"), "degenerate-tokens"}
+			if i%8 == 0 {
+				jobs <- job{"text/css;inline=1", []byte(prop + ":" + strings.Join(parts, sep)), "degenerate-tokens"}
+			}
+		}
+	}
+	pathToks := []string{"M", "m", "L", "l", "H", "V", "C", "c", "S", "s", "Q", "q", "T", "t", "A", "a", "Z", "z", "0", "1", "-1", ".", "-", "+", "1e", "1e5", ".5", "1.", "0 0", "1 1", "1,1", "1 1 1 1", "1 1 0 1 1 5 5", "1 1 0 11", "10 10 0 0 0", ","}
+	for i := 0; i < 30000; i++ {
+		k := 1 + r.Intn(7)
+		var parts []string
+		for j := 0; j < k; j++ {
+			parts = append(parts, pathToks[r.Intn(len(pathToks))])
+		}
+		d := strings.Join(parts, []string{" ", "", ","}[r.Intn(3)])
+		jobs <- job{"image/svg+xml", []byte(`<svg><path d="` + d + `"/></svg>`), "degenerate-tokens"}
+	}
+	for _, attr := range []string{"points", "transform", "viewBox", "fill", "stroke", "style", "x", "width", "stroke-dasharray", "offset", "d"} {
+		for _, a := range append(cssToks, pathToks...) {
+			if strings.ContainsAny(a, `"<`) {
+				continue
+			}
+			jobs <- job{"image/svg+xml", []byte(`<svg><polygon ` + attr + `="` + a + `"/></svg>`), "degenerate-tokens"}
+			jobs <- job{"image/svg+xml", []byte(`<svg><rect ` + attr + `="` + a + ` ` + a + `"/></svg>`), "degenerate-tokens"}
+		}
+	}
+	for _, tail := range []string{"<?xml", "<?xml version=\"1.0\"", "<?xml version=\"1.0\">", "<svg><?pi", "<svg><?pi a", "<!DOCTYPE", "<!DOCTYPE svg [", "<svg><![CDATA[", "<svg><!--", "<svg a", "<svg a=", "<svg a=\"", "<svg><style>", "<svg><style><![CDATA[a{"} {
+		for _, mt := range []string{"image/svg+xml", "text/xml", "text/html"} {
+			jobs <- job{mt, []byte(tail), "unterminated"}
+			jobs <- job{mt, []byte("<a>" + tail), "unterminated"}
+		}
+	}
 	close(jobs)
 	wg.Wait()
+	if atomic.LoadInt32(&hangs) >= 3 {
+		res.Rule = "stopped early: three inputs did not return within their time limit (each is reported as a violation)"
+		sort.Slice(res.Violations, func(i, j int) bool { return len(res.Violations[i].InputHex) < len(res.Violations[j].InputHex) })
+		if len(res.Violations) > 60 {
+			res.Violations = res.Violations[:60]
+		}
+		if err := res.Write(filepath.Join(*outDir, "result.json")); err != nil {
+			panic(err)
+		}
+		os.Exit(0)
+	}
 	// (d) linearity probes
 	for _, p := range []struct{ mt, name, unit string }{
 		{"text/css", "css-rules", "a{color:#ff0000;margin:0px 1px 0px 1px}\n"}, {"text/html", "html-paras", "<p class=\"a b\">x &amp; y <b>z</b></p>\n"},
